@@ -10,7 +10,8 @@ LEVEL = 'proof'
 MANIFEST = dict(
     text='Theorems (Coq, all integers, all bundles): +/- are exact per-asset sums/differences with normalised results; ==, <=, < are '
          'the component-wise relations; filter spec; (a+b)-b=a; frame theorems over a two-level store model: pure operators leave '
-         'all existing objects untouched, += changes only the left operand to the pure sum (also under aliasing). Model tied to '
+         'all existing objects untouched, += changes only the left operand to the pure sum (also under aliasing), Asset-level += '
+         'changes one entry of one bundle; >= and > (reflected <= / <) are the component-wise relations. Model tied to '
          'the code by exact correspondence on random aliasing programs.',
     note='Trusted: Coq kernel+vm_compute; hand model Value.v/ValueHeap.v validated by differential runs; generator; driver. No axioms.',
     technique='Coq proof (induction over dict folds, content abstraction, store frame) + correspondence', ref='C05')
